@@ -380,6 +380,44 @@ def _skeleton(repo, rep):
     rep.check(bool(pre), "R08.2", site, "every loop name is bound to None "
               "before the loop (an empty sequence leaves them defined)",
               construct="prebind", where=wh)
+    # 'binding the loop variable (or unpacking into several) to each item':
+    # the item is assigned ONCE per iteration -- a chained assignment to one
+    # target per context unpacks a one-shot iterator item a second time
+    fr = repo.func(COMP + "visit_Repeat") if "COMP" in globals() else \
+        repo.func("chameleon.compiler.Compiler.visit_Repeat")
+    items = [c for c in ast.walk(fr.node) if isinstance(c, ast.Call)
+             and src(c.func) == "ast.Assign" and any(
+                 k.arg == "value" and "__item" in src(k.value)
+                 for k in c.keywords)]
+    oku = len(items) == 1
+    udetail = "%d item assignment(s)" % len(items)
+    if not items:
+        # emitted some other way: judge by the emission tree -- one
+        # assignment of __item whose targets are not built per context
+        arows = [lin.item(j) for j in range(len(lin.rows))
+                 if isinstance(lin.item(j), A.Py)
+                 and lin.item(j).kind == "Assign"
+                 and "__item" in A.show(lin.item(j).f.get("value"))]
+        frs = [x for j in range(len(lin.rows)) for x in [lin.item(j)]
+               if isinstance(x, A.Frag) and L.frag_find(x, "_T = __item")]
+        oku = (len(arows) + len(frs) == 1) and not any(
+            "'rcontext'" in A.show(a_.f.get("targets"), limit=12)
+            for a_ in arows)
+        udetail = "%d assignment(s) of __item in the emission" % (
+            len(arows) + len(frs))
+    elif oku:
+        tv = [k.value for k in items[0].keywords if k.arg == "targets"]
+        t_ = tv[0] if tv else None
+        single = (isinstance(t_, ast.List) and len(t_.elts) == 1) or (
+            isinstance(t_, ast.Subscript) and isinstance(
+                t_.slice, ast.Slice) and t_.slice.lower is None
+            and isinstance(t_.slice.upper, ast.Constant)
+            and t_.slice.upper.value == 1)
+        oku = single
+        udetail = "targets=%s" % (src(t_) if t_ is not None else None)
+    rep.check(oku, "R08.2", site, "each item is assigned (unpacked) once "
+              "per iteration; other contexts get copies of the values",
+              construct="item-unpacked-once", where=wh, detail=udetail)
     rows = [j for j in range(len(lin.rows))
             if any(n is fo and fld == "body" for n, fld in lin.path(j))]
     child = [j for j in rows if isinstance(lin.item(j), A.Child)]
